@@ -38,6 +38,7 @@ type ReplaySpec struct {
 	Files    []string `json:"files"`  // template files (relative to /verif/replay/<id>/) to overlay into PkgDir
 	Run      string `json:"run"`      // -run pattern
 	Module   string `json:"module"`   // module dir relative to repo root ("." default)
+	Race     bool   `json:"race"`     // run the replay under the race detector
 }
 
 var lineSuffix = regexp.MustCompile(`@[A-Za-z0-9_./-]+:[0-9]+`)
@@ -104,7 +105,12 @@ func replay(repo, prop string, o *OblResult, jsonPath string) (ran bool, reprodu
 			mod = "."
 		}
 		rel, _ := filepath.Rel(filepath.Join(repo, mod), filepath.Join(repo, s.PkgDir))
-		cmd := exec.Command("go", "test", "-overlay", ovPath, "-vet=off", "-count=1", "-timeout", "60s", "-run", s.Run, "./"+rel)
+		targs := []string{"test", "-overlay", ovPath, "-vet=off", "-count=1", "-timeout", "120s", "-run", s.Run}
+		if s.Race {
+			targs = append(targs, "-race")
+		}
+		targs = append(targs, "./"+rel)
+		cmd := exec.Command("go", targs...)
 		cmd.Dir = filepath.Join(repo, mod)
 		cmd.Env = append(env, "GOVC_REPLAY="+jsonPath, "GOFLAGS=")
 		out, _ := cmd.CombinedOutput()
@@ -112,7 +118,11 @@ func replay(repo, prop string, o *OblResult, jsonPath string) (ran bool, reprodu
 		if len(txt) > 6000 {
 			txt = txt[:6000]
 		}
-		return true, strings.Contains(txt, "REPRODUCED:") && !strings.Contains(txt, "NOT-REPRODUCED"), txt
+		repro := strings.Contains(txt, "REPRODUCED:") && !strings.Contains(txt, "NOT-REPRODUCED")
+		if s.Race && strings.Contains(txt, "WARNING: DATA RACE") {
+			repro = true
+		}
+		return true, repro, txt
 	}
 	return false, false, ""
 }
